@@ -74,7 +74,7 @@ CHECKS = {
             "emitter x consumer x emit/broadcast x normal/detached event (exactly once, in order, nothing after the consumer, "
             "deferred part only after the library's own loop body ran), interface lookup by class; all 16 getProtocolLayers/"
             "getDefaultLayers combos, positional forms, all 32x2 getDefaultStack combos, pushDefaultLayers. Exhaustive for the "
-            "small shapes and the flag space, sampled above. Every stack built by the default helpers is kept and its wiring (neighbour links, stack membership of every layer and sublayer) is verified again after later stacks were built; a builder with a pushed, popped and pushed layer is included. The library's own pass-through layer (logger) is placed as plain layer and as member of parallel groups of every size/position in explicit, implicit and builder compositions: data must reach every layer once. Four stacks carry a subclass of the library's interface layer on top: each finds the network/auth interfaces of its own stack, in any asking order. 150 stacks of random shape over the library's own YowNetworkLayer: its dispatcher callbacks are called for 2-4 connections in a row; connected seen once at once, disconnected once by the neighbour at once and by the rest only when the loop runs. 120 stacks of the library's own layers (any module selection, with/without encryption layers) under drawn values of ping interval, passive, auto-trust and reconnect: events emitted below reach a probe above exactly once, broadcasts from above reach a probe below exactly once. Eight complete default stacks (any module selection) through a whole first login against the server double: the network layer's state events are seen once, in order, above the whole stack. Two stacks from every published yowsup.stacks.YOWSUP_* tuple; earlier stacks stay wired to their own layers.",
+            "small shapes and the flag space, sampled above. Every stack built by the default helpers is kept and its wiring (neighbour links, stack membership of every layer and sublayer) is verified again after later stacks were built; a builder with a pushed, popped and pushed layer is included. The library's own pass-through layer (logger) is placed as plain layer and as member of parallel groups of every size/position in explicit, implicit and builder compositions: data must reach every layer once. Four stacks carry a subclass of the library's interface layer on top: each finds the network/auth interfaces of its own stack, in any asking order. 150 stacks of random shape over the library's own YowNetworkLayer: its dispatcher callbacks are called for 2-4 connections in a row; connected seen once at once, disconnected once by the neighbour at once and by the rest only when the loop runs. 120 stacks of the library's own layers (any module selection, with/without encryption layers) under drawn values of ping interval, passive, auto-trust and reconnect: events emitted below reach a probe above exactly once, broadcasts from above reach a probe below exactly once. Eight complete default stacks (any module selection) through a whole first login against the server double: the network layer's state events are seen once, in order, above the whole stack. Two stacks from every published yowsup.stacks.YOWSUP_* tuple; earlier stacks stay wired to their own layers. 'disconnected' is announced up to three times in a row (failed connection attempts) to the stacks of library layers.",
             "Trusted: the reference interpreter (our reading of the statement). Siblings inside the emitter's/consumer's own group: only 'at most once'.",
             "DESIGN.md 4/C18"),
     "C19": ("fault_enumeration",
@@ -84,7 +84,7 @@ CHECKS = {
             "save(dest=), config_to_str+file and YowProfile.write_config, loaded by path with/without extension and by profile "
             "name, profile directory existing or not. Crash points: every Python line of the save path, the file open, every "
             "7-byte chunk reaching the OS, close and rename are enumerated completely for each sampled save; a forked child is "
-            "killed there and the parent requires load() to return the previous or the new configuration. The previous configuration is either config.json or a key=value config.yo in the profile directory. JSON values include lone surrogates. In half of the round trips the configuration is read (keys, str, items) before it is saved. 40% of the profiles are saved a second time with other values (JSON profile routes); loads also through stack.setProfile(name).",
+            "killed there and the parent requires load() to return the previous or the new configuration. The previous configuration is either config.json or a key=value config.yo in the profile directory. JSON values include lone surrogates. In half of the round trips the configuration is read (keys, str, items) before it is saved. 40% of the profiles are saved a second time with other values (JSON profile routes); loads also through stack.setProfile(name). A constructed configuration must read back, field by field, what the constructor was given.",
             "Trusted: os.rename atomicity and the filesystem; process death only (no power loss). Saves to enumerate are sampled, their crash points are complete.",
             "DESIGN.md 4/C19"),
     "C13": ("fault_enumeration",
@@ -144,7 +144,7 @@ CHECKS = {
             "every event the model is compared with load_unsent_prekeys, the stored keys and the uploads seen by the server: "
             "pending == stored minus confirmed, confirmed keys never re-offered, every offered (id, key) is in the store until a "
             "delivered first message consumed it and gone afterwards, a replay delivers nothing, identity/registration id match "
-            "the account and the signed prekey verifies under the identity (Curve.verifySignature). Overlapping uploads: the server asks again while earlier uploads are unanswered; results arrive in order, reversed, or the last one is lost. While an upload is unanswered the application issues pings that the server answers (their ids driven past the upload's id): the upload stays unconfirmed. Signed prekey ids are tracked like one-time keys (an id names one key for ever, the server-held one must be in the store); a quarter of the histories start with an unconfirmed first upload followed by a kill; the world's restart rolls back and closes the old connection. Event stray-iq-during-upload (an iq with the unanswered upload's id and type get / set / none / unknown, then the real answer is lost); one restart in four finds the key store locked at first. The account draws the stack options reconnect-on-stream-error (on/off/unset) and auto-trust. A fifth of the logins get a success reply lacking one optional attribute; after every accepted login the keys that were pending have to be offered.",
+            "the account and the signed prekey verifies under the identity (Curve.verifySignature). Overlapping uploads: the server asks again while earlier uploads are unanswered; results arrive in order, reversed, or the last one is lost. While an upload is unanswered the application issues pings that the server answers (their ids driven past the upload's id): the upload stays unconfirmed. Signed prekey ids are tracked like one-time keys (an id names one key for ever, the server-held one must be in the store); a quarter of the histories start with an unconfirmed first upload followed by a kill; the world's restart rolls back and closes the old connection. Event stray-iq-during-upload (an iq with the unanswered upload's id and type get / set / none / unknown, then the real answer is lost); one restart in four finds the key store locked at first. The account draws the stack options reconnect-on-stream-error (on/off/unset) and auto-trust. A fifth of the logins get a success reply lacking one optional attribute; after every accepted login the keys that were pending have to be offered. Forced histories with uploads of exactly 255/256/257 keys (first upload with such a batch; two unconfirmed half batches offered at one login).",
             "Trusted: the server double (stores keys on processing the request), python-axolotl. Histories sampled.",
             "DESIGN.md 4/C14"),
     "C17": ("exploration",
@@ -184,7 +184,7 @@ CHECKS = {
             "dispatchers over loopback TCP (peer close, local disconnect, refused connect, stream error with automatic "
             "reconnect, re-login after the network thread ended, immediate re-login from another thread while the first "
             "connect() has not returned, login failure), with yield injection inside the dispatchers; judged on announcement "
-            "counts, network-thread termination, no spurious close, resumed (IK) handshake, exceptions in network threads. Real dispatchers: ECONNRESET is injected into the next socket write of the socket and asyncore dispatchers over loopback; the failing send and a later send from another thread must return, no lock may stay held (layer locks and the dispatcher's), the connection is announced down once and a reconnect logs in and carries a stanza. Further events: the connection going down at line event k of the keep-alive thread's step (random k in histories; k=1..20 as scripted sweeps followed by a relogin with every ping answered), a partial further frame behind a connection-ending stanza, a connect request before the stack's loop has delivered the previous 'disconnected' announcement (judged), the new connection even coming up before that (known finding reconnect-up-before-loop-turn), and for asyncore a disconnect() placed between the loop's descriptor collection and its select(). Upward failure under the real dispatchers: a layer raises on an incoming frame, the application reconnects from another thread once the announcement has reached it while the old network thread is held at its next line; the new connection must log in, stay up, be announced down zero times and carry a stanza. A pong may arrive while the keep-alive thread is still inside the send of its ping (event tick-pong-race and scripted histories), after which answered pings must never time out. After every non-critical failure two threads send at once (the thread that saw the failure inside a long send, a second one joining), with yield injection; the strict peer must still decrypt everything exactly once. Real scenario first-login-reboot: passive login, key upload confirmed by the server thread, the library's own close and non-passive reconnect, with the network thread held at its next line in the control layer until the loop thread has worked off the announcement. Race placement after every non-critical failure: the thread that saw the failure, or a fresh one, is held between cipher counter and write queue while the other sends or acknowledges (five role combinations). Key-request failures: a message from a sender without session, the key request fails (answer without keys; failpoint while it goes down), the sender's next message must be handled like the first. Event connect-request-while-up: refused, nothing changes. Real dispatchers: a layer raises on an incoming frame (harness shared with C12): announced down once, a new connect logs in. Natural failure key-request-without-t: a key-count notification the library cannot parse, then a well-formed one has to lead to an upload. Stream errors with text before condition. Natural failure truncated-compressed-frame (deflate stream without its end): has to be reported, nothing of it delivered.",
+            "counts, network-thread termination, no spurious close, resumed (IK) handshake, exceptions in network threads. Real dispatchers: ECONNRESET is injected into the next socket write of the socket and asyncore dispatchers over loopback; the failing send and a later send from another thread must return, no lock may stay held (layer locks and the dispatcher's), the connection is announced down once and a reconnect logs in and carries a stanza. Further events: the connection going down at line event k of the keep-alive thread's step (random k in histories; k=1..20 as scripted sweeps followed by a relogin with every ping answered), a partial further frame behind a connection-ending stanza, a connect request before the stack's loop has delivered the previous 'disconnected' announcement (judged), the new connection even coming up before that (known finding reconnect-up-before-loop-turn), and for asyncore a disconnect() placed between the loop's descriptor collection and its select(). Upward failure under the real dispatchers: a layer raises on an incoming frame, the application reconnects from another thread once the announcement has reached it while the old network thread is held at its next line; the new connection must log in, stay up, be announced down zero times and carry a stanza. A pong may arrive while the keep-alive thread is still inside the send of its ping (event tick-pong-race and scripted histories), after which answered pings must never time out. After every non-critical failure two threads send at once (the thread that saw the failure inside a long send, a second one joining), with yield injection; the strict peer must still decrypt everything exactly once. Real scenario first-login-reboot: passive login, key upload confirmed by the server thread, the library's own close and non-passive reconnect, with the network thread held at its next line in the control layer until the loop thread has worked off the announcement. Race placement after every non-critical failure: the thread that saw the failure, or a fresh one, is held between cipher counter and write queue while the other sends or acknowledges (five role combinations). Key-request failures: a message from a sender without session, the key request fails (answer without keys; failpoint while it goes down), the sender's next message must be handled like the first. Event connect-request-while-up: refused, nothing changes. Real dispatchers: a layer raises on an incoming frame (harness shared with C12): announced down once, a new connect logs in. Natural failure key-request-without-t: a key-count notification the library cannot parse, then a well-formed one has to lead to an upload. Stream errors with text before condition. Natural failure truncated-compressed-frame (deflate stream without its end): has to be reported, nothing of it delivered. In half of the real upward-failure cases the application asks for a disconnect on the dead connection before it reconnects. Failure stanzas carry a reason code, a reason word or no reason.",
             "Trusted: the reference machine (our reading of the statement), scripted dispatcher, loopback server thread. First login (key upload, reconnect) precedes the judged history.",
             "DESIGN.md 4/C16"),
     "C09": ("exploration",
@@ -205,7 +205,7 @@ CHECKS = {
             "presence, chat state, picture/status/contact/group notifications, calls, ib, success/failure/stream error/features) "
             "are injected at the bottom with generated values (25 draws per cell quick, 500 thorough). Exactly one stanza equal "
             "to the entity's serialisation / one entity of the documented class re-serialising to the stanza is required when "
-            "the owning module is selected, nothing and no exception otherwise. The kind x selection x wiring matrix is complete; values are sampled. All cases of one stack run interleaved in a seeded random order; a reach monitor requires an outgoing kind for every (layer, tag) send handler found in the assembled stack. Reply rounds: requests of every kind sent without callbacks, then their result/error replies in random order while others are outstanding: each reply must produce exactly one entity at the top. Delivered entities are read twice (second serialisation must equal the first); incoming receipts with <list> of items are included. With the encryption layers, really encrypted stanzas from a peer with its own key store arrive in five shapes (first message, later message, group message with sender-key distribution, sender key alone, pairwise-only group stanza as sent in answer to a retry): each gives exactly one entity with the text. Every 9th incoming stanza comes once more with an unknown extra attribute and / or child (in front of the known children for notifications, appended elsewhere): still one entity of the same class.",
+            "the owning module is selected, nothing and no exception otherwise. The kind x selection x wiring matrix is complete; values are sampled. All cases of one stack run interleaved in a seeded random order; a reach monitor requires an outgoing kind for every (layer, tag) send handler found in the assembled stack. Reply rounds: requests of every kind sent without callbacks, then their result/error replies in random order while others are outstanding: each reply must produce exactly one entity at the top. Delivered entities are read twice (second serialisation must equal the first); incoming receipts with <list> of items are included. With the encryption layers, really encrypted stanzas from a peer with its own key store arrive in five shapes (first message, later message, group message with sender-key distribution, sender key alone, pairwise-only group stanza as sent in answer to a retry): each gives exactly one entity with the text. Every 9th incoming stanza comes once more with an unknown extra attribute and / or child (in front of the known children for notifications, appended elsewhere): still one entity of the same class. Retry receipts that nothing below has to serve reach the application as receipts; with the media module, an encrypted group image message in the shape other clients use (mediatype on the sender-key part only) gives one image entity.",
             "Trusted: the ownership rule (package defining the entity class) and vf/catalogue.py. iq replies are C08's, encrypted stanzas C03's.",
             "DESIGN.md 4/C06"),
     "C07": ("exploration",
